@@ -11,12 +11,14 @@ Import ListNotations.
 Open Scope N_scope.
 
 (** the refinement relation of the task statement, on heap boards: position, side to move, clock, full-move
-    number, and the chain below the head (positions and sides, most recent first) *)
+    number, and the chain below the head (positions and sides, most recent first).  The clock of the board
+    is the clock of the specification game capped at [max_int] (the Go counter saturates at math.MaxInt):
+    [clk_rel n gc] is [Z.of_N n = Z.min gc (Z.of_N max_int)]. *)
 Definition GRel (hb : heap * board) (g : gstate) : Prop :=
   let (h, b) := hb in
   abs_pos (b_position h b) = g_pos g /\
   color_of (b_turn b) = g_turn g /\
-  Z.of_N (b_noprogress h b) = g_clock g /\
+  clk_rel (b_noprogress h b) (g_clock g) /\
   b_moves b = g_fullmove g /\
   tl (states (data h b) (b_turn b)) = g_past g.
 
@@ -32,6 +34,11 @@ Proof.
   - intros (A & B & C & D & E). rewrite A, B, E. auto.
   - intros (A & C & D). inversion A. auto.
 Qed.
+
+(** the premise of the exact recount: the clock is below saturation, or the history has at most
+    [max_int + 1] nodes (GameLemmas3.[unsat]) *)
+Definition b_unsat (h : heap) (b : board) : Prop :=
+  unsat (b_noprogress h b) (length (chain h (b_current b))).
 
 Definition spec_game (pos : position) (turn np : N) (fm : Z) (ms : list move) : gstate :=
   g_play_all (g_start (abs_pos pos) (color_of turn) (Z.of_N np) fm) (map abs_move ms).
@@ -69,12 +76,12 @@ Proof.
   - now rewrite <- Hres.
 Qed.
 
-(** set-up *)
-Theorem Game_new pos turn np fm h b : wf_b pos turn = true -> (turn = 0 \/ turn = 1) ->
+(** set-up; the set-up clock is a Go [int] that [fen.Decode] / [NewBoard] accept: 0 <= np <= max_int *)
+Theorem Game_new pos turn np fm h b : wf_b pos turn = true -> (turn = 0 \/ turn = 1) -> np <= max_int ->
   new_board z [] pos turn np fm = (h, b) ->
   Game h b (g_start (abs_pos pos) (color_of turn) (Z.of_N np) fm) /\ b_result b = no_result.
 Proof.
-  intros Hwf Ht H. pose proof (wf_new z pos turn np fm h b Ht H) as Hw.
+  intros Hwf Ht Hnp H. pose proof (wf_new z pos turn np fm h b Ht H) as Hw.
   unfold new_board in H. inversion H; subst h b. clear H.
   assert (Ed : data [mkNode pos (zhash z pos turn) np no_move None]
                  (mkBoard [(zhash z pos turn, 1%Z)] false false 1 fm turn no_result 0) = [(pos, zhash z pos turn, np)]).
@@ -85,7 +92,8 @@ Proof.
     + intros k. unfold count_hash. cbn [rep_get filter ehash fst snd].
       destruct (zhash z pos turn =? k); reflexivity.
   - unfold ARel, a_noprogress. cbn [abs a_data a_turn a_moves b_turn b_moves]. rewrite Ed.
-    cbn. auto.
+    cbn [states epos hd fst snd g_start g_pos g_turn g_past g_clock g_fullmove].
+    split; [reflexivity|]. split; [now apply clk_rel_start|reflexivity].
   - cbn. discriminate.
 Qed.
 
@@ -102,8 +110,9 @@ Theorem push_refines_gen h b g m h1 b1 : Game h b g ->
   (outcome (b_result b1) = Draw -> outcome (b_result b) = Draw \/ g_now g' <> []) /\
   rep_get (b_reps b1) (b_hash h1 b1) =
     Z.of_nat (length (filter (fun n => n_hash n =? b_hash h1 b1) (chain h1 (b_current b1)))) /\
-  identical_position_count h1 b1 (b_current b1) (b_turn b1) (b_noprogress h1 b1) =
-    occurrences (g_pos g', g_turn g') (g_past g').
+  (b_unsat h1 b1 ->
+   identical_position_count h1 b1 (b_current b1) (b_turn b1) (b_noprogress h1 b1) =
+     occurrences (g_pos g', g_turn g') (g_past g')).
 Proof.
   intros (Hwf & Hinv & Hrel & Hdr) Hin Hpush. cbv zeta.
   pose proof (wf_push_move z h b m h1 b1 true Hwf Hpush) as Hwf1.
@@ -131,6 +140,10 @@ Proof.
   - rewrite <- get_hash in Hrep by exact Hwf1. cbn [abs a_reps a_data] in Hrep. rewrite Hrep.
     unfold count_hash, data. rewrite filter_map_len. reflexivity.
   - (* the walk on the new heap is the list walk over the old chain *)
+    intros Hu.
+    assert (Hipc' := Hipc ltac:(rewrite <- (get_noprogress h1 b1 Hwf1); unfold abs; cbn [a_data]; unfold data;
+                               rewrite map_length; exact Hu)).
+    clear Hipc. rename Hipc' into Hipc.
     destruct Hwf as (Hw & Hc & Hn & Ht). destruct Hwf1 as (Hw1 & Hc1 & Hn1 & Ht1).
     unfold identical_position_count, identical_position_count_with.
     rewrite (ipc_walk_list true h1 _ (b_turn b1) (b_noprogress h1 b1) Hw1).
@@ -163,12 +176,13 @@ Section Played.
 Variables (pos : position) (turn np : N) (fm : Z).
 Hypothesis Hpos : wf_b pos turn = true.
 Hypothesis Hturn : turn = 0 \/ turn = 1.
+Hypothesis Hnp : np <= max_int.
 Local Notation sg := (spec_game pos turn np fm).
 
 Theorem played_Game ms h b : played_board pos turn np fm ms h b -> Game h b (sg ms).
 Proof.
   induction 1 as [h b Hnew | ms h b m h1 b1 Hpl IH Hin Hpush].
-  - exact (proj1 (Game_new pos turn np fm h b Hpos Hturn Hnew)).
+  - exact (proj1 (Game_new pos turn np fm h b Hpos Hturn Hnp Hnew)).
   - rewrite spec_game_snoc. exact (proj1 (push_refines_gen h b (sg ms) m h1 b1 IH Hin Hpush)).
 Qed.
 
@@ -188,7 +202,7 @@ Proof.
     exact (proj1 (proj2 (proj2 (proj2 (push_refines_gen h b (sg ms) m h1 b1 HG0 Hin Hpush))))).
   - exact (proj2 (proj2 (proj2 HG))).
   - intros E. destruct Hpl as [h b Hnew | ms h b m h1 b1 Hpl Hin Hpush].
-    + exact (proj2 (Game_new pos turn np fm h b Hpos Hturn Hnew)).
+    + exact (proj2 (Game_new pos turn np fm h b Hpos Hturn Hnp Hnew)).
     + destruct ms; discriminate.
 Qed.
 
@@ -221,29 +235,57 @@ Proof.
   cbn [abs a_data a_reps] in Hc. rewrite Hc. unfold count_hash, data. now rewrite filter_map_len.
 Qed.
 
+(** the history has one node per move played, plus the start node *)
+Lemma played_length ms h b : played_board pos turn np fm ms h b ->
+  length (chain h (b_current b)) = S (length ms).
+Proof.
+  induction 1 as [h b Hnew | ms h b m h1 b1 Hpl IH Hin Hpush].
+  - pose proof (wf_new z pos turn np fm h b Hturn Hnew) as Hw. unfold new_board in Hnew. inversion Hnew; subst h b.
+    rewrite chain_unfold by (destruct Hw; assumption). reflexivity.
+  - pose proof (played_Game ms h b Hpl) as (Hwf & _).
+    pose proof (wf_push_move z h b m h1 b1 true Hwf Hpush) as Hwf1.
+    rewrite push_move_is_pushw in Hpush.
+    pose proof (push_sim zmove update_noprogress true has_insufficient_material z h b m h1 b1 true Hwf Hpush) as Hsim.
+    unfold apush_with in Hsim.
+    destruct (blocked (a_result (abs h b))); [discriminate|].
+    destruct (pos_move (a_position (abs h b)) m); [|discriminate].
+    apply (f_equal (fun x => length (a_data (fst x)))) in Hsim. cbn [fst a_data abs length] in Hsim.
+    unfold data in Hsim. rewrite !map_length in Hsim. rewrite app_length. cbn [length]. lia.
+Qed.
+
+(** the clock never exceeds [max_int] *)
+Theorem clock_le_max_int ms h b : played_board pos turn np fm ms h b -> b_noprogress h b <= max_int.
+Proof.
+  intros Hpl. destruct (played_Game ms h b Hpl) as (Hwf & _ & Hrel & _).
+  rewrite (get_noprogress h b Hwf). destruct Hrel as (_ & Hc & _). exact (clk_rel_le _ _ Hc).
+Qed.
+
 (** 4. [window_complete] *)
-Theorem window_complete_gen ms h b : played_board pos turn np fm ms h b ->
+Theorem window_complete_gen ms h b : played_board pos turn np fm ms h b -> b_unsat h b ->
   forall j n, nth_error (chain h (b_current b)) j = Some n -> b_noprogress h b < N.of_nat j ->
   abs_pos (n_pos n) <> abs_pos (b_position h b).
 Proof.
-  intros Hpl j n Hj Hlt. destruct (played_Game ms h b Hpl) as (Hwf & [Hh _] & _).
+  intros Hpl Hu j n Hj Hlt. destruct (played_Game ms h b Hpl) as (Hwf & [Hh _] & _).
   cbn [abs a_data a_turn] in Hh. destruct (data_nonempty h b Hwf) as [e [r [Ed Ee]]].
   assert (Hje : nth_error (data h b) j = Some (ndata n)) by (unfold data; now rewrite nth_error_map, Hj).
   pose proof (window_complete_list z W W_step _ _ Hh e r j (ndata n) Ed Hje) as Hwc.
-  subst e. cbn [ndata epos eclk fst snd] in Hwc. apply Hwc. exact Hlt.
+  subst e. cbn [ndata epos eclk fst snd] in Hwc. apply Hwc; [|exact Hlt].
+  unfold data. rewrite map_length. exact Hu.
 Qed.
 
 (** 5. [ipc_counts], for the board as it stands after any number of moves *)
-Theorem ipc_counts_gen ms h b : played_board pos turn np fm ms h b ->
+Theorem ipc_counts_gen ms h b : played_board pos turn np fm ms h b -> b_unsat h b ->
   identical_position_count h b (b_current b) (b_turn b) (b_noprogress h b) =
   occurrences (g_pos (sg ms), g_turn (sg ms)) (g_past (sg ms)).
 Proof.
-  intros Hpl. destruct (played_Game ms h b Hpl) as (Hwf & [Hh _] & [Hst _] & _).
+  intros Hpl Hu. destruct (played_Game ms h b Hpl) as (Hwf & [Hh _] & [Hst _] & _).
   cbn [abs a_data a_turn] in Hh, Hst. destruct Hwf as (Hw & Hc & Hn & Ht).
+  assert (Hu' : unsat (n_noprogress (hnode h (b_current b))) (length (data h b)))
+    by (unfold data; rewrite map_length; exact Hu).
   unfold identical_position_count, identical_position_count_with.
   rewrite (ipc_walk_list true h _ (b_turn b) (b_noprogress h b) Hw).
   2:{ intros id Hid. pose proof (Hw _ _ Hid). lia. }
-  rewrite data_unfold in Hh, Hst by exact Hw.
+  rewrite data_unfold in Hh, Hst, Hu' by exact Hw.
   set (cur := hnode h (b_current b)) in *. set (r := map ndata (chain_opt h (n_prev cur))) in *.
   assert (Hvt : vcol (b_turn b)) by (destruct Ht; [left|right]; assumption).
   destruct (hash_consistent_list z _ _ Hh 0%nat (ndata cur) eq_refl) as (_ & Hwf0 & Hh0).
@@ -258,7 +300,7 @@ Proof.
     split; [exact (wf_inv _ _ (wf_b_WF _ _ A))|exact B].
   - intros j e Hj Hlim. destruct (same_state _ _) eqn:Es; [|reflexivity]. exfalso.
     apply same_state_eq in Es. assert (Ea := f_equal fst Es). cbn [fst] in Ea.
-    refine (window_complete_list z W W_step _ _ Hh (ndata cur) r (S j) e eq_refl Hj _ (eq_sym Ea)).
+    refine (window_complete_list z W W_step _ _ Hh (ndata cur) r (S j) e eq_refl Hj Hu' _ (eq_sym Ea)).
     cbn [ndata eclk snd]. lia.
 Qed.
 
